@@ -134,7 +134,7 @@ SEGMENT = {0: ["<undefined>", "NOTHING"], 1: ["CODE"], 2: ["DATA"], 3: ["IDATA"]
 
 LEN_BOUNDARY = [0, 1, 2, 255, 256, 511, 512, 513, 8191, 8192, 8193, 16384, 65535]
 ADDR_BOUNDARY = [0, 1, 0xff, 0x100, 0xffff, 0x10000, 0x7fffffff, 0x80000000, 0xffff0000]
-CREATORS = ["AS 1.42/x86_64-unknown-linux", "BIND/C 1.42", "x", "AS 1.41r8/i386-unknown-win32", "my own tool (c) 1999"]
+CREATORS = ["AS 1.42 Beta [Bld 212]/x86_64-Linux", "BIND/C 1.42", "x", "AS 1.42/x86_64-unknown-linux", "AS 1.41r8/i386-unknown-win32", "my own tool (c) 1999"]
 
 
 # ---------------------------------------------------------------- payload
@@ -212,7 +212,7 @@ def gen_addr(d, units):
 
 def gen_record(d, cpus, segs, allow_undoc):
     cpu = d.choice(cpus)
-    if allow_undoc and d.bool(0.06):
+    if allow_undoc and d.weighted([(24, False), (1, True)]):
         cpu = d.choice(UNDOC_IDS)
     form = d.weighted([(5, "long"), (4, "short")])
     if form == "short":
@@ -232,7 +232,7 @@ def gen_record(d, cpus, segs, allow_undoc):
 
 
 def gen_file(d, idx, cpus, segs, allow_undoc=True):
-    nrec = d.weighted([(1, 0), (4, 1), (5, 2), (4, 3), (2, 4), (1, 6)])
+    nrec = d.weighted([(4, 1), (5, 2), (4, 3), (2, 4), (1, 0), (1, 6), (1, 16)])
     recs = [gen_record(d, cpus, segs, allow_undoc) for _ in range(nrec)]
     em = d.weighted([(5, "none"), (4, "end"), (1, "middle")])
     if em == "end":
@@ -253,7 +253,10 @@ def gen_files(d, allow_undoc=True):
     if d.bool(0.5):                                        # make granularity 2/4 families common
         cpus[0] = d.choice([0x70, 0x71, 0x74, 0x3b, 0x76, 0x09, 0x7d, 0x12, 0x1a])
     segs = d.weighted([(3, [1]), (3, [1, 2]), (2, [1, 2, 4, 7]), (2, list(range(1, 10))), (1, list(range(0, 10)))])
-    return [gen_file(d, i, cpus, segs, allow_undoc) for i in range(nfiles)], cpus
+    files = [gen_file(d, i, cpus, segs, allow_undoc) for i in range(nfiles)]
+    if nfiles < 4 and d.weighted([(11, False), (1, True)]):
+        files.append(dict(files[d.int(0, nfiles - 1)]))      # the same file named twice on the command line
+    return files, cpus
 
 
 def number(v, style):
@@ -309,7 +312,7 @@ def parse_plist(text, file_names):
     cur = None
     i = dash + 1
     n = len(lines)
-    while i < n and lines[i].strip() != "":
+    while i < n and lines[i].strip() != "" and not lines[i].startswith("altogether"):
         raw = lines[i]
         l = raw.strip()
         i += 1
